@@ -37,11 +37,12 @@ Configs ==
        ew |-> e[1], eh |-> e[2], ml |-> m[1], mr |-> m[2], mt |-> m[3], mb |-> m[4], p |-> p, inplace |-> FALSE] :
         w \in 0..MaxW, h \in 0..MaxH, so \in Origins, dor \in Origins,
         e \in {<<0, 0>>, <<1, 0>>, <<0, 1>>, <<1, 1>>},
-        m \in {<<0, 0, 0, 0>>, <<1, 0, 1, 0>>, <<0, 1, 0, 1>>, <<1, 1, 1, 1>>}, p \in 1..MaxP } \cup
+        \* (ml, mr, mt, mb); <<0,0,0,1>> / <<0,0,1,0>>: full-width bands (stride = width, parent rows below / above)
+        m \in {<<0, 0, 0, 0>>, <<1, 0, 1, 0>>, <<0, 1, 0, 1>>, <<1, 1, 1, 1>>, <<0, 0, 0, 1>>, <<0, 0, 1, 0>>}, p \in 1..MaxP } \cup
     { [sw |-> w, sh |-> h, sx |-> so[1], sy |-> so[2], dx |-> so[1], dy |-> so[2],
        ew |-> 0, eh |-> 0, ml |-> m[1], mr |-> m[2], mt |-> m[3], mb |-> m[4], p |-> p, inplace |-> TRUE] :
         w \in 0..MaxW, h \in 0..MaxH, so \in Origins,
-        m \in {<<0, 0, 0, 0>>, <<1, 1, 1, 1>>}, p \in 1..MaxP }
+        m \in {<<0, 0, 0, 0>>, <<1, 1, 1, 1>>, <<0, 0, 0, 1>>, <<0, 0, 1, 0>>}, p \in 1..MaxP }
 
 \* destination coordinates written for source pixel (j, i)
 OffX(c) == CASE OffsetRule = "min" -> c.dx - c.sx
